@@ -17,7 +17,10 @@ Req(t, kind, x) == [t |-> t, put |-> [some |-> kind = "put", i |-> IF kind = "pu
 BW(reqs) == [op |-> "BatchWrite", c |-> "c1", reqs |-> reqs]
 
 Failing(k) == {
-  Put(T1, k @@ [g |-> Num(1)]),                                           \* index key of the wrong type
+  Put(T1, k @@ [g |-> Num(1)]),                                           \* index key of the wrong type (hash of gix / gsx, no s)
+  Put(T1, k @@ [g |-> Num(1), s |-> S1(49)]), Put(T1, k @@ [g |-> S1(112), s |-> Num(1)]),   \* gsx: hash / range ill-typed
+  Put(T1, k @@ [l |-> Num(1)]), Put(T1, k @@ [g |-> S1(112), l |-> Bool(TRUE)]),              \* local index sort key ill-typed
+  Upd(T1, k, SetU("l", Val(":n")), One(":n", Num(7))),
   Upd(T1, k, SetU("g", Val(":n")), One(":n", Num(7))),                    \* update makes the index key ill-typed
   Upd(T1, k, SetU("v", [k |-> "plus", l |-> Path("zz"), r |-> Val(":n")]), One(":n", Num(1))),   \* operand missing
   Upd(T1, k, SetU("v", [k |-> "lapp", l |-> Path("g"), r |-> Val(":s")]), One(":s", S1(115))),  \* list_append on non-lists
@@ -33,7 +36,14 @@ Failing(k) == {
 \*   BW(<<Req(T1, "put", k @@ [v |-> Num(9)]), Req(T1, "put", [v |-> Num(9)])>>)     second request lacks the key
 \*   BW(<<Req(T1, "del", k), Req(T1, "put", k @@ [g |-> Num(1)])>>)                   second request ill-typed index key
 
-SetupDef == << AddTable("c1", T1, "h", ""), AddIndex("c1", T1, "gix", "g", "") >>
+AD(n) == [n |-> n, ty |-> "S"]
+\* hash-only table would not allow a local index: the table has a sort key r (always "1" in this model)
+CT == [op |-> "CreateTable", c |-> "c1", t |-> T1, hash |-> [n |-> "h", ty |-> "S"], range |-> [some |-> FALSE, n |-> "", ty |-> ""],
+       billing |-> "PAY_PER_REQUEST", thr |-> FALSE, attrs |-> <<AD("h"), AD("g"), AD("s"), AD("l")>>,
+       gsis |-> <<[name |-> "gix", hash |-> "g", range |-> [some |-> FALSE, n |-> ""], proj |-> "ALL", thr |-> FALSE],
+                  [name |-> "gsx", hash |-> "g", range |-> [some |-> TRUE, n |-> "s"], proj |-> "ALL", thr |-> FALSE]>>,
+       lsis |-> <<[name |-> "lix", hash |-> "h", range |-> [some |-> TRUE, n |-> "l"], proj |-> "ALL"]>>]
+SetupDef == << CT >>
 MenuDef == SetToSeq(
      { Put(T1, it) : it \in Items } \cup { Del(T1, k, FALSE) : k \in Keys }
   \cup UNION { Failing(k) : k \in Keys }
